@@ -134,15 +134,15 @@ def lastValue : List (Bytes × Bytes) → Bytes → Option Bytes
 theorem otherFields_cons_other (p : Bytes × Bytes) (l : List (Bytes × Bytes))
     (h1 : (p.1 == scxmlEventName) = false) (h2 : (p.1 == scxmlContent) = false) :
     otherFields (p :: l) = p :: otherFields l := by
-  simp [otherFields, List.filter_cons, bne, h1, h2]
+  simp [otherFields, bne, h1, h2]
 
 theorem otherFields_cons_name (p : Bytes × Bytes) (l : List (Bytes × Bytes))
     (h1 : (p.1 == scxmlEventName) = true) : otherFields (p :: l) = otherFields l := by
-  simp [otherFields, List.filter_cons, bne, h1]
+  simp [otherFields, bne, h1]
 
 theorem otherFields_cons_content (p : Bytes × Bytes) (l : List (Bytes × Bytes))
     (h2 : (p.1 == scxmlContent) = true) : otherFields (p :: l) = otherFields l := by
-  simp [otherFields, List.filter_cons, bne, h2]
+  simp [otherFields, bne, h2]
 
 theorem buildEvent_aux (l : List (Bytes × Bytes)) (n0 : Option Bytes) (e0 : Event) :
     l.foldl (fun (acc : Option Bytes × Event) nv =>
@@ -396,5 +396,103 @@ theorem rocketMap_plain (fields : List (Bytes × Bytes)) (hp : plainFields field
   simp only [List.nil_append, Bool.false_eq_true, ↓reduceIte, hany]
   rw [foldl_insert_distinct fields [] hd (by intro p _; rfl)]
   simp
+
+/-! ### lemmas used by `Props/C20.lean` -/
+
+/-- the event a request contributes, which depends on the table only through its session ids -/
+def eventOf (t : Table) (r : Bytes × Bytes) : Option (Nat × Event) :=
+  match parseSid (pctDecode r.1) with
+  | none => none
+  | some sid =>
+    if (lookup t sid).isSome then
+      match rocketMap (formDecode r.2) with
+      | none => none
+      | some form => (routeEvent form).map (fun ev => (sid, ev))
+    else none
+
+theorem receive_eventOf (t : Table) (r : Bytes × Bytes) :
+    (receive t r.1 r.2).2 =
+      match eventOf t r with
+      | some (sid, ev) => enqueue t sid ev
+      | none => t := by
+  unfold receive eventOf handlePost routeBody routeEvent
+  cases parseSid (pctDecode r.1) with
+  | none => rfl
+  | some sid =>
+    simp only
+    cases hl : lookup t sid with
+    | none =>
+      cases rocketMap (formDecode r.2) <;> simp
+    | some s =>
+      cases rocketMap (formDecode r.2) with
+      | none => simp
+      | some form =>
+        simp only [Option.isSome_some, ↓reduceIte]
+        cases hb : buildEvent form with
+        | mk n ev => cases n <;> simp
+
+theorem eventOf_congr (t t' : Table) (h : sidsOf t = sidsOf t') (r : Bytes × Bytes) :
+    eventOf t r = eventOf t' r := by
+  unfold eventOf
+  cases parseSid (pctDecode r.1) with
+  | none => rfl
+  | some sid =>
+    have : (lookup t sid).isSome = (lookup t' sid).isSome := by
+      rw [Bool.eq_iff_iff, lookup_isSome_iff, lookup_isSome_iff, h]
+    simp only [this]
+
+theorem otherFields_params (ps : List (Bytes × DataV))
+    (h : ps.all (fun p => p.1 != scxmlEventName && p.1 != scxmlContent) = true) :
+    otherFields (ps.map (fun p => (p.1, dataText p.2))) = ps.map (fun p => (p.1, dataText p.2)) := by
+  unfold otherFields
+  apply List.filter_eq_self.mpr
+  intro q hq
+  simp only [List.mem_map] at hq
+  obtain ⟨p, hp, rfl⟩ := hq
+  exact List.all_eq_true.mp h p hp
+
+theorem otherFields_append (a b : List (Bytes × Bytes)) :
+    otherFields (a ++ b) = otherFields a ++ otherFields b := by
+  simp [otherFields]
+
+theorem fieldValue_append_absent (a b : List (Bytes × Bytes)) (k : Bytes)
+    (h : a.any (fun q => q.1 == k) = false) : fieldValue (a ++ b) k = fieldValue b k := by
+  induction a with
+  | nil => rfl
+  | cons p a ih =>
+    rw [List.any_cons, Bool.or_eq_false_iff] at h
+    rw [List.cons_append, fieldValue_cons, h.1, ih h.2]
+    rfl
+
+theorem params_no_content (ps : List (Bytes × DataV))
+    (h : ps.all (fun p => p.1 != scxmlEventName && p.1 != scxmlContent) = true) :
+    (ps.map (fun p => (p.1, dataText p.2))).any (fun q => q.1 == scxmlContent) = false := by
+  apply List.any_eq_false.mpr
+  intro q hq
+  simp only [List.mem_map] at hq
+  obtain ⟨p, hp, rfl⟩ := hq
+  have := List.all_eq_true.mp h p hp
+  simp only [Bool.and_eq_true, bne_iff_ne, ne_eq] at this
+  simp [this.2]
+
+theorem routeBody_spec (t : Table) (sid : Nat) (form : List (Bytes × Bytes))
+    (hd : keysDistinct form = true) :
+    routeBody t sid form =
+      match lookup t sid, specEvent form with
+      | some _, some (n, _) =>
+        (200, enqueue t sid
+          { name := n,
+            params := if (otherFields form).isEmpty then none else some (otherFields form),
+            content := fieldValue form scxmlContent })
+      | _, _ => (400, t) := by
+  unfold routeBody specEvent
+  rw [buildEvent_eq, lastValue_distinct form _ hd, lastValue_distinct form _ hd]
+  cases lookup t sid with
+  | none => rfl
+  | some s =>
+    cases fieldValue form scxmlEventName with
+    | none => rfl
+    | some n => rfl
+
 
 end Rfsm.Http
